@@ -230,6 +230,11 @@ def run(res, tier):
                 K = A.strip_casts(rhs['ch'][1])['v']
             elif rhs['k'] == 'BinaryOperator' and rhs.get('op') == '+' and 'v' in A.strip_casts(rhs['ch'][1]):
                 K = -A.strip_casts(rhs['ch'][1])['v']
+            # the pop-up tests are the ones whose true branch leaves the function with `return true` (the caller pops up too); a test whose true branch returns false only abandons the child
+            ifs = [a for a in cn.ancestors() if a['k'] == 'IfStmt' and a.role('cond') is not None and any(x is cn for x in a.role('cond').walk())]
+            then = ifs[0].role('then') if ifs else None
+            if then is None or not any(x['k'] == 'ReturnStmt' and x['ch'] and A.strip_casts(x['ch'][0]).get('v') == 1 for x in then.walk()):
+                continue
             Ks.append(K + (0 if op_ == '<' else -1))      # R <= X  is  R < X+1
     if len(Ks) < 2 or len(set(Ks)) != 1:
         raise AnalysisBroken('ONCE: the pop-up tests of CheckChildForTraversal were not found or disagree: %s' % Ks)
@@ -245,6 +250,62 @@ def run(res, tier):
                    'subtree instead of once per session' % (sorted(rv, key=str), K, depth_sn + 1, limit))
     res.ob('ONCE', cc.where(), 'both pop-up tests of CheckChildForTraversal use the same offset', len(set(Ks)) == 1, how='K = %s at %d sites' % (K, len(Ks)), function=cc.q, key='ONCE|%s|popup' % cc.q,
            message='the two pop-up tests of CheckChildForTraversal disagree')
+    # ---- ONCE (c): a returned depth below the child's own depth means "do not go on with this child" (RemoveDataCallback: "no sense in recursing down a node that we're going to delete",
+    # PassMessageCallbackAux: "leave this session's subtree"): after such a result no further callback or recursion may happen for the same child
+    ev = []
+    for n_ in cc.walk():
+        if n_.is_call() and re.search(r'::(CallCallbackMethod|DoTraversalAux)$', n_.get('q') or ''):
+            holder = None
+            for v in cc.walk():
+                if v['k'] == 'VarDecl' and v['ch'] and any(x is n_ for x in v['ch'][0].walk()):
+                    holder = v['d']
+                if v['k'] == 'BinaryOperator' and v.get('op') == '=' and any(x is n_ for x in v['ch'][1].walk()) and A.strip_casts(v['ch'][0])['k'] == 'DeclRefExpr':
+                    holder = A.strip_casts(v['ch'][0]).get('d')
+            ev.append((n_, holder))
+    if len(ev) < 2:
+        raise AnalysisBroken('ONCE: the callback call / the recursion of CheckChildForTraversal were not found')
+    bad = None
+    npaths = 0
+    # once-only flags: bool locals that are only ever set to true after their declaration (`matched`, `recursed`)
+    once = {}
+    for v in cc.walk():
+        if v['k'] == 'VarDecl' and 'bool' in v.type() and v['ch'] and A.strip_casts(v['ch'][0]).get('v') == 0:
+            asn = [w for w in cc.walk() if w['k'] == 'BinaryOperator' and w.get('op') == '=' and A.strip_casts(w['ch'][0]).get('d') == v['d']]
+            if asn and all(A.strip_casts(w['ch'][1]).get('v') == 1 for w in asn):
+                once[v['d']] = asn
+    for (e1, h1) in ev:
+        for (e2, h2) in ev:
+            paths, complete = C.paths_between(cc, P.pos_of(cc, e1), P.pos_of(cc, e2))
+            if not complete:
+                bad = bad or (e1, e2, 'too many paths')
+            for asg in paths:
+                # a path that tests a once-only flag and finds it false although every way from e1 to that test sets it is not feasible
+                infeasible = False
+                for (cid, truth) in asg.items():
+                    core, pol = A.bool_polarity(cc.nodes[cid], truth)
+                    if core['k'] == 'DeclRefExpr' and core.get('d') in once and pol is False:
+                        sets = set(P.pos_of(cc, w) for w in once[core['d']])
+                        if not C.can_reach(cc, P.pos_of(cc, e1), set([P.pos_of(cc, cc.nodes[cid])]), avoid_points=sets):
+                            infeasible = True
+                if infeasible:
+                    continue
+                npaths += 1
+                kept = False
+                for (cid, truth) in asg.items():
+                    for (l_, op_, r_) in A.rel_forms(cc.nodes[cid], truth):
+                        if op_ in ('>=', '==') and l_['k'] == 'DeclRefExpr' and l_.get('d') == h1 and h1 is not None and r_.is_call() and (r_.get('q') or '').endswith('DataNode::GetDepth'):
+                            kept = True
+                        if op_ == '>' and l_['k'] == 'DeclRefExpr' and l_.get('d') == h1 and h1 is not None and r_['k'] == 'BinaryOperator' and r_.get('op') == '-' \
+                                and A.strip_casts(r_['ch'][1]).get('v') == 1 and any(x.is_call() and (x.get('q') or '').endswith('DataNode::GetDepth') for x in r_['ch'][0].walk()):
+                            kept = True          # nextDepth > depth - 1
+                if not kept:
+                    bad = bad or (e1, e2, ', '.join('%s=%s' % (cc.nodes[k_].text(40), v_) for k_, v_ in list(asg.items())[:5]))
+    res.ob('ONCE', cc.where(ev[0][0]), 'CheckChildForTraversal: after a callback or a recursion returned a depth below the child\'s own depth, nothing more is done for that child', bad is None, function=cc.q,
+           key='ONCE|%s|abandon-child' % cc.q, how='%d path(s) between the %d callback/recursion sites, each with `returned depth >= child depth`' % (npaths, len(ev)),
+           message='CheckChildForTraversal can go from `%s` (line %s) to `%s` (line %s) for the same child although the first one may have returned a depth below the child\'s own depth (only the pop-up '
+                   'test `< depth-1` was made): a Message whose keys select a session node and also a node below it ("/*/*" and "foo") is delivered to that session twice — the callback\'s "leave this '
+                   'session" answer equals the session node\'s parent depth, which the pop-up test does not catch, and the deeper pattern then descends into the session\'s subtree'
+                   % ((bad[0].text(40), bad[0].get('l'), bad[1].text(40), bad[1].get('l')) if bad else ('', '', '', '')))
     match_recheck_rule(res, fx, 'GUARD')
     # ---- DEFAULT-ROUTE: the dispatcher selects the default route by `_parameters.HasName(PR_NAME_KEYS)`; SETPARAMETERS must therefore really store that field in _parameters
     res.rule('DEFAULT-ROUTE', 'SETPARAMETERS: a field that is copied into _parameters (msg.CopyName(fn, _parameters)) has not been moved or removed out of msg earlier on the same path; '
@@ -346,6 +407,43 @@ def run(res, tier):
             ok = True
     res.ob('UNIQUE-AGREE', g.where(), 'DoDirectChildLookup looks up RemoveEscapeChars(key)', ok, function=g.q, key='UNIQUE-AGREE|%s|unescape' % g.q,
            message='the literal lookup no longer unescapes the pattern: an escaped literal such as `a\\*b` never finds the child named `a*b`')
+    # ---- unescape exactly once: DoDirectChildLookup unescapes its key, so what it is given must still be in escaped (pattern) form
+    callee_unescapes = 1 if ok else 0
+    n_uo = 0
+    for (g_, c) in lookups_ip:
+        if len(c.args()) < 3:
+            continue
+        a2 = A.strip_casts(c.args()[2])
+        if a2['k'] != 'DeclRefExpr' or a2.get('d') is None:
+            continue
+        apps = [x for x in g_.walk() if x['k'] == 'CXXOperatorCallExpr' and (x.get('q') or '').endswith('::operator+=') and len(x['ch']) > 2 and A.strip_casts(x['ch'][1]).get('d') == a2['d']]
+        if not apps:
+            continue                     # not an accumulator built here: the pattern itself (a reference to GetPattern())
+        n_uo += 1
+        # the scanner's "this character is an escape character" flags: bool locals defined from a comparison with the backslash
+        flags = set()
+        for v in g_.walk():
+            rhs = v['ch'][0] if v['k'] == 'VarDecl' and v['ch'] and 'bool' in v.type() else (v['ch'][1] if v['k'] == 'BinaryOperator' and v.get('op') == '=' and 'bool' in A.strip_casts(v['ch'][0]).type() else None)
+            if rhs is not None and any(x['k'] == 'BinaryOperator' and x.get('op') in ('==', '!=') and any(A.strip_casts(y).get('v') == 92 for y in x['ch']) for x in rhs.walk()):
+                flags.add(v['d'] if v['k'] == 'VarDecl' else A.strip_casts(v['ch'][0]).get('d'))
+        keeps = False
+        for ap in apps:
+            under_not_escape = False
+            for (cn, t) in G.atoms_at(g_, ap):
+                core, pol = A.bool_polarity(cn, t)
+                if core['k'] == 'DeclRefExpr' and core.get('d') in flags and pol is False:
+                    under_not_escape = True
+            if not under_not_escape:
+                keeps = True             # some append also runs for the escape character itself: the accumulated text keeps its escapes
+        drops = 1 if (flags and not keeps) else 0
+        res.ob('UNIQUE-AGREE', g_.where(c), 'the clause handed to DoDirectChildLookup at line %s is unescaped exactly once on its way to GetChild()' % c.get('l'), drops + callee_unescapes == 1, function=g_.q,
+               key='UNIQUE-AGREE|%s|unescape-once:%s' % (g_.q, a2.get('n')), how='splitter drops escape characters: %s; DoDirectChildLookup applies RemoveEscapeChars: %s' % (bool(drops), bool(callee_unescapes)),
+               message='%s copies the clause into `%s` without its escape characters and DoDirectChildLookup() then applies RemoveEscapeChars() to it again: for the clause `a\\\\b,c` (which as a pattern '
+                       'matches the names `a\\b` and `c`) the fast path looks up the child `ab` — the session owning `a\\b` does not get the Message and the session owning `ab` does, while the '
+                       'iterate-and-match path (taken as soon as another pattern has a wildcard) decides the opposite' % (g_.q, a2.get('n')) if drops + callee_unescapes > 1 else
+                       '%s: the clause reaches GetChild() without being unescaped' % g_.q)
+    if n_uo < 1:
+        raise AnalysisBroken('UNIQUE-AGREE: no DoDirectChildLookup call with a locally split clause found (comma-list case)')
     # ---- ONCE (b): the de-duplication table of the direct-lookup traversal spans all patterns of the Message
     from msa import cfg as C_
     f = fx.fn1(SRS + '::NodePathMatcher::DoTraversalAux')
